@@ -408,6 +408,10 @@ class InterpCore(object):
                 return Num(x - y, inex)
             if isinstance(op, ast.Mult):
                 return Num(x * y, inex)
+            if isinstance(op, (ast.Div, ast.FloorDiv, ast.Mod)) and y.as_const() is not None and y.as_const() == 0:
+                # the divisor is exactly zero on this path: Python raises ZeroDivisionError
+                from .symeval_ops import ExcV
+                raise RaiseSignal(ExcV(ExtV("builtins.ZeroDivisionError"), [Const("division by zero")]), node)
             if isinstance(op, ast.Div):
                 self.divisions.append((y, getattr(node, "lineno", None), self.stack[-1].label if self.stack else "?"))
                 return Num(x / y, True)
@@ -604,6 +608,9 @@ class InterpCore(object):
             return container.obj.contains(self, item)
         if isinstance(container, (LoopDictV, SetV, Opaque, SeqV, InstV, Phi)):
             return Cond("in", item, container)
+        if isinstance(container, Num) or (isinstance(container, Const) and (container.v is None or isinstance(container.v, bool))):
+            from .symeval_ops import ExcV
+            raise RaiseSignal(ExcV(ExtV("builtins.TypeError"), [Const("argument of type %s is not iterable" % type(container).__name__)]), node)
         self.err(node, "membership test on %r" % (container,))
 
     def truth(self, v):
